@@ -1,6 +1,6 @@
 """C08 - simplify preserves meaning."""
 from harness.common import Report, import_hpl, rng, tier
-from harness.rewrite_driver import Recorder, corrupt_first, family_texts, parse_inputs
+from harness.rewrite_driver import Recorder, corrupt_first, derived_pass, family_texts, parse_inputs
 
 FAMILIES_QUICK = ['num1w', 'bool1w', 'funs', 'incl', 'quants', 'slots', 'cmpbool', 'num2', 'bool2', 'cmp11']
 FAMILIES_THOROUGH = FAMILIES_QUICK + ['num22', 'bool22', 'alias']
@@ -23,10 +23,13 @@ def run(replay=None):
     rnd = rng('c08')
     rec = Recorder(rep, rnd, 64 if thorough else 32)
     texts = family_texts(list(FAMILIES_THOROUGH if thorough else FAMILIES_QUICK) + [('rand', 8000, 5) if thorough else ('rand', 1500, 4)], rep, rnd, cap=None if thorough else 2500)
+    used = []
     for fam, text, entry, obj in parse_inputs(texts, ('expression', 'condition')):
         if entry == 'condition' and rnd.random() > 0.3:
             continue
         rec.simplify(text, obj)
+        used.append((text, obj))
+    rep.count('derived_after_use', derived_pass(used, rec.simplify, rnd, 1500 if thorough else 400))
     for i, clause in rec.validate(canary):
         inf = rec.info[i]
         rep.violation('%s|%s' % (clause, inf['text']), 'simplify(%r) -> %s violates %s' % (inf['text'], inf['result'] or inf['out'], clause), inf)
